@@ -93,6 +93,14 @@ if __name__ == "__main__":
     mk("c20-retry-total-counts-first-attempt", R + "retry.py", "                if job.attempt != 0:\n                    metrics.RETRY_TOTAL", "                if job.attempt >= 0:\n                    metrics.RETRY_TOTAL")
     mk("c20-poll-error-not-counted", R + "poll.py", "            metrics.POLL_ERROR.labels(executor=self._name).inc()\n", "")
     mk("c20-cancelled-delegate-job-not-popped", R + "retry.py", "            self._pop_job(found_job)\n            found_job.future._me_delegate_cancelled()", "            found_job.future._me_delegate_cancelled()")
+    # C13
+    mk("c13-error-fn-on-success-too", R + "map.py", "        else:\n            result = delegate.result()\n            try:\n                result = self._map_fn(result)", "        else:\n            result = delegate.result()\n            try:\n                if self._error_fn is not None and self._map_fn is identity:\n                    result = self._error_fn(result)\n                result = self._map_fn(result)")
+    mk("c13-reraise-same-branch-dropped", R + "map.py", "            if ex is inner_ex:\n                # fn raised exactly the same thing:\n                # then copy directly from the future\n                copy_future_exception(delegate, self)\n            else:", "            if False:\n                copy_future_exception(delegate, self)\n            else:\n                inner_ex = inner_ex.with_traceback(None)")
+    mk("c13-flatten-keeps-map-fn", R + "flat_map.py", "        self._map_fn = lambda x: x\n", "")
+    mk("c13-nonfuture-typeerror-swallowed", R + "flat_map.py", "        if not callable(getattr(result, \"add_done_callback\", None)):\n            raise TypeError(", "        if not callable(getattr(result, \"add_done_callback\", None)):\n            return super(FlatMapFuture, self)._on_mapped(result)\n            raise TypeError(")
+    mk("c13-flatten-keeps-error-fn", R + "flat_map.py", "        self._error_fn = None\n", "")
+    mk("c13-error-fn-result-ignored", R + "map.py", "            result = self._delegate_failed(delegate)\n            if self.done():\n                return", "            result = self._delegate_failed(delegate)\n            if self.done():\n                return\n            if result is None:\n                copy_future_exception(delegate, self)\n                return")
+    mk("c13-map-fn-exception-replaced", R + "map.py", "            try:\n                result = self._map_fn(result)\n            except Exception:\n                copy_exception(self)\n                return", "            try:\n                result = self._map_fn(result)\n            except Exception as e:\n                copy_exception(self, type(e)(*e.args))\n                return")
     # C07
     mk("c07-throttle-ge-to-gt", R + "throttle.py", "(executor._running_count.value >= throttle)", "(executor._running_count.value > throttle)")
     mk("c07-incr-after-submit", R + "throttle.py", "            executor._running_count.incr()\n            metrics.THROTTLE_QUEUE", "            metrics.THROTTLE_QUEUE")
